@@ -20,6 +20,7 @@ type Gen struct {
 	ow      *bufio.Writer
 	rng     *rand.Rand
 	profile string
+	cfg     profileCfg
 
 	nextEnt, nextFilter, nextObs, nextQuery, nextDump int
 	valCtr                                            int64
@@ -41,8 +42,76 @@ type Gen struct {
 	RelTargets  map[string]int `json:"relation_target_kinds"`
 }
 
+// profileCfg tunes the generator for one property family.
+type profileCfg struct {
+	mult       map[string]float64 // weight multipliers per op kind
+	stale      float64            // probability of picking a dead entity
+	minObs     int
+	maxObs     int
+	minFilters int
+	maxOpen    int     // max simultaneously open queries
+	noVals     float64 // probability that a component is added without a value
+	typedBias  float64 // probability of preferring the typed tuple path
+	maxComps   int     // 256, or 64 for the tiny build
+	fullReg    bool    // fill the registry up to the maximum
+}
+
+func profileOf(name string) profileCfg {
+	c := profileCfg{mult: map[string]float64{}, stale: 0.04, maxObs: 3, minFilters: 2, maxOpen: 3,
+		noVals: 0.1, typedBias: 0.3, maxComps: 256}
+	m := c.mult
+	switch name {
+	case "noobs":
+		c.maxObs = 0
+		m["obs"] = 0
+	case "observers":
+		c.minObs, c.maxObs = 3, 8
+		m["obs"], m["otoggle"], m["emit"], m["set"] = 4, 4, 3, 2
+	case "relations":
+		m["setrel"], m["setrelb"], m["del"], m["delb"], m["shrink"] = 3, 3, 2, 2, 2
+	case "batch":
+		m["newb"], m["xchgb"], m["setrelb"], m["delb"] = 3, 4, 4, 3
+	case "pool":
+		m["new"], m["del"], m["copy"], m["newb"], m["delb"], m["alive"], m["dumpload"] = 2, 3, 3, 3, 2, 5, 4
+		m["add"], m["rem"], m["xchg"], m["set"], m["setrel"] = 0.3, 0.3, 0.3, 0.3, 0.3
+		c.stale = 0.15
+	case "queries":
+		c.minFilters = 5
+		m["query"], m["qopen"], m["filter"], m["setrel"] = 4, 4, 3, 2
+	case "cache":
+		c.minFilters = 4
+		m["freg"], m["query"], m["qopen"], m["setrel"], m["del"], m["shrink"], m["reset"], m["filter"] = 6, 4, 3, 2, 2, 3, 3, 2
+	case "lock":
+		c.maxOpen = 70
+		m["qopen"], m["locked"], m["freg"] = 12, 5, 2
+	case "stale":
+		c.stale = 0.35
+		m["copy"], m["emit"] = 3, 2
+	case "memory":
+		c.noVals = 0.6
+		m["add"], m["rem"], m["xchg"], m["shrink"], m["xchgb"], m["reset"] = 2, 2, 2, 3, 2, 2
+	case "typed":
+		c.typedBias = 0.95
+	case "shrink":
+		m["shrink"], m["del"], m["delb"], m["newb"], m["setrel"], m["freg"], m["query"] = 10, 3, 3, 3, 2, 2, 2
+	case "reset":
+		m["reset"], m["obs"], m["freg"], m["res"] = 12, 3, 3, 4
+		c.minObs, c.maxObs = 1, 5
+	case "dump":
+		m["dumpload"], m["del"], m["copy"], m["alive"] = 15, 3, 2, 4
+	case "registry":
+		c.fullReg = true
+		m["res"], m["qopen"] = 8, 2
+	case "stats":
+		m["stats"], m["shrink"], m["freg"], m["obs"] = 12, 2, 2, 2
+	case "tiny":
+		c.maxComps = 64
+	}
+	return c
+}
+
 func newGen(h *H, ow *bufio.Writer, seed int64, profile string) *Gen {
-	return &Gen{h: h, ow: ow, rng: rand.New(rand.NewSource(seed)), profile: profile,
+	return &Gen{h: h, ow: ow, rng: rand.New(rand.NewSource(seed)), profile: profile, cfg: profileOf(profile),
 		OpKinds: map[string]int{}, Panics: map[string]int{}, RelTargets: map[string]int{}}
 }
 
@@ -157,7 +226,7 @@ func (g *Gen) compTokens(names []int, withVals bool, stale float64, omitRel floa
 	var parts []string
 	for _, n := range names {
 		s := fmt.Sprintf("c%d", n)
-		if withVals && !g.chance(0.1) {
+		if withVals && !g.chance(g.cfg.noVals) {
 			s += fmt.Sprintf(":%d", g.val())
 		}
 		if g.isRel(n) && !g.chance(omitRel) {
@@ -202,7 +271,10 @@ func (g *Gen) path(names []int, allowU bool) string {
 			cs = append(cs, g.h.comps[n])
 		}
 		if _, ok := mapperCtors[tupleKey(cs)]; ok {
-			opts = append(opts, "t", "t")
+			if g.chance(g.cfg.typedBias) {
+				return "t"
+			}
+			opts = append(opts, "t")
 		}
 	}
 	if len(opts) == 0 {
@@ -237,7 +309,7 @@ func (g *Gen) tupleOrder(names []int) []int {
 func (g *Gen) prelude() {
 	caps := []int{1, 1, 2, 3, 8, 1024}
 	rels := []int{1, 2, 2, 128}
-	g.emit(fmt.Sprintf("world %d %d 256", caps[g.pick(len(caps))], rels[g.pick(len(rels))]))
+	g.emit(fmt.Sprintf("world %d %d %d", caps[g.pick(len(caps))], rels[g.pick(len(rels))], g.cfg.maxComps))
 	g.nextEnt, g.nextFilter, g.nextObs, g.nextQuery, g.nextDump = 0, 0, 0, 0, 0
 	g.ents, g.filterLabels, g.typedFilters, g.obsLabels, g.openQueries = nil, nil, nil, nil, nil
 
@@ -256,8 +328,11 @@ func (g *Gen) prelude() {
 		order[0] = 4
 	}
 	totalFill := []int{0, 0, 50, 60, 116, 180, 240}[g.pick(7)]
-	if totalFill+nreg > 256 {
-		totalFill = 256 - nreg
+	if g.cfg.fullReg {
+		totalFill = g.cfg.maxComps - nreg - g.pick(2)
+	}
+	if totalFill+nreg > g.cfg.maxComps {
+		totalFill = g.cfg.maxComps - nreg
 	}
 	// split the fillers into up to 4 blocks placed before random registrations
 	blocks := map[int]int{}
@@ -444,7 +519,7 @@ func (g *Gen) opNew() bool {
 }
 
 func (g *Gen) opAdd() bool {
-	el, l, alive := g.pickEntity(0.04)
+	el, l, alive := g.pickEntity(g.cfg.stale)
 	if el == "" {
 		return false
 	}
@@ -474,7 +549,7 @@ func (g *Gen) opAdd() bool {
 }
 
 func (g *Gen) opRem() bool {
-	el, l, alive := g.pickEntity(0.04)
+	el, l, alive := g.pickEntity(g.cfg.stale)
 	if el == "" {
 		return false
 	}
@@ -509,7 +584,7 @@ func joinSp(names []int) string {
 }
 
 func (g *Gen) opXchg() bool {
-	el, l, alive := g.pickEntity(0.04)
+	el, l, alive := g.pickEntity(g.cfg.stale)
 	if el == "" {
 		return false
 	}
@@ -548,7 +623,7 @@ func (g *Gen) opXchg() bool {
 }
 
 func (g *Gen) opSet() bool {
-	el, l, alive := g.pickEntity(0.04)
+	el, l, alive := g.pickEntity(g.cfg.stale)
 	if el == "" || el == "z" {
 		return false
 	}
@@ -577,7 +652,7 @@ func (g *Gen) opSet() bool {
 }
 
 func (g *Gen) opSetRel() bool {
-	el, l, alive := g.pickEntity(0.04)
+	el, l, alive := g.pickEntity(g.cfg.stale)
 	if el == "" {
 		return false
 	}
@@ -617,7 +692,7 @@ func (g *Gen) opSetRel() bool {
 }
 
 func (g *Gen) opDel() bool {
-	el, _, _ := g.pickEntity(0.05)
+	el, _, _ := g.pickEntity(g.cfg.stale)
 	if el == "" {
 		return false
 	}
@@ -626,7 +701,7 @@ func (g *Gen) opDel() bool {
 }
 
 func (g *Gen) opCopy() bool {
-	el, _, _ := g.pickEntity(0.05)
+	el, _, _ := g.pickEntity(g.cfg.stale)
 	if el == "" {
 		return false
 	}
@@ -789,7 +864,7 @@ func (g *Gen) opDelBatch() bool {
 }
 
 func (g *Gen) opQOpen() bool {
-	if len(g.filterLabels) == 0 || len(g.openQueries) >= 3 {
+	if len(g.filterLabels) == 0 || len(g.openQueries) >= g.cfg.maxOpen {
 		return false
 	}
 	l := g.filterLabels[g.pick(len(g.filterLabels))]
@@ -865,7 +940,7 @@ func (g *Gen) opEmit() bool {
 		return false
 	}
 	ev := g.customEvents[g.pick(len(g.customEvents))]
-	el, l, alive := g.pickEntity(0.05)
+	el, l, alive := g.pickEntity(g.cfg.stale)
 	if el == "" {
 		el = "z"
 	}
@@ -939,18 +1014,20 @@ func (g *Gen) Run(nseq, nops int) {
 		if g.chance(0.6) {
 			g.customEvents = []int{0, 1, 2}
 		}
-		nf := 2 + g.pick(4)
+		nf := g.cfg.minFilters + g.pick(4)
 		for i := 0; i < nf; i++ {
 			g.newFilter()
 		}
-		if g.profile != "noobs" {
-			no := g.pick(4)
-			if g.profile == "observers" {
-				no = 3 + g.pick(5)
-			}
+		if g.cfg.maxObs > 0 {
+			no := g.cfg.minObs + g.pick(g.cfg.maxObs-g.cfg.minObs+1)
 			for i := 0; i < no; i++ {
 				g.newObserver()
 			}
+		}
+		if g.cfg.fullReg {
+			// beyond the maximum, and on a locked world
+			g.emit("fill 1")
+			g.emit("fill 2")
 		}
 		ops := []opGen{
 			{"new", 22, g.opNew}, {"add", 12, g.opAdd}, {"rem", 8, g.opRem}, {"xchg", 8, g.opXchg},
@@ -960,7 +1037,7 @@ func (g *Gen) Run(nseq, nops int) {
 			{"delb", 2, g.opDelBatch}, {"qopen", 3, g.opQOpen}, {"qstep", 0, g.opQStep},
 			{"filter", 2, func() bool { g.newFilter(); return true }},
 			{"obs", 1, func() bool {
-				if g.profile == "noobs" {
+				if g.cfg.maxObs == 0 {
 					return false
 				}
 				g.newObserver()
@@ -1003,8 +1080,11 @@ func (g *Gen) Run(nseq, nops int) {
 			{"locked", 1, func() bool { g.emit("locked"); return true }},
 		}
 		total := 0
-		for _, o := range ops {
-			total += o.weight
+		for i := range ops {
+			if m, ok := g.cfg.mult[ops[i].name]; ok {
+				ops[i].weight = int(float64(ops[i].weight)*m + 0.5)
+			}
+			total += ops[i].weight
 		}
 		for n := 0; n < nops; {
 			// while queries are open, mostly step/close them
